@@ -102,8 +102,13 @@ def must_pass(ctx, rule, fi, g, sources, sinks, gates, what, msg, cut=(), kills=
     if not sources:
         raise AnalysisError("%s: no source found for '%s' in %s" % (rule, what, fi.qname))
     starts = []
+    cutset = set(cut)
     for s in sources:
-        starts += g.normal_succ(s) if start_after else [s]
+        if start_after:
+            starts += [m for m, l in s.succ if not l.startswith("exc")
+                       and (s.id, l) not in cutset and (s.id, m.id, l) not in cutset]
+        else:
+            starts.append(s)
     seen = g.reach(starts, blocked=list(gates) + list(kills), cut=cut)
     hit = [k for k in sinks if k.id in seen]
     if hit:
